@@ -21,9 +21,13 @@ Tick convention (what the docs and code comments support, all readings accepted)
   * For d = 0 the oracle accepts T = 0 (effect visible right after the request) or T = 1 (next tick).  Not completing
     by then is a violation.
 Timing assertions are suspended for an operation interrupted by a power event (node not ON at any time during its life),
-by deletion of its folder, by a second compromise during a fix, or by a second request of the same timed operation on
+by deletion of its folder, or by a second request of the same timed operation on
 the same target while the first is pending (restart and ignore are both accepted: the two windows are merged).  The
-visibility invariant is never suspended.
+visibility invariant is never suspended.  A compromise arriving during a fix takes the software out of FIXING: from then
+on no fix is in progress ("...will remain in a FIXING state before going into a GOOD state" - software that has left FIXING
+is not remaining in it), so it may become GOOD in a tick only if it was FIXING at the start of that tick.
+A scan that is seen to complete must have brought EVERY covered item up to date (another pending scan on one of the
+folders adds a second opportunity, it never removes this one).
 """
 from __future__ import annotations
 
@@ -574,7 +578,10 @@ def run_case(case: Dict) -> CaseResult:
             # tick: only expected timed completions
             if key[0] == "sw":
                 fx = [p for p in pend if p.kind == "fix" and p.target == key[1]]
-                if fx and now["a"] == "GOOD" and (was["a"] == "FIXING" or fx[0].interrupted):
+                # only software that is FIXING at the start of the tick may become GOOD in it: fixing_duration is "the
+                # number of timesteps the software will remain in a FIXING state before going into a GOOD state"; software
+                # that a new compromise has taken out of FIXING is not remaining in it, so nothing is left to complete
+                if fx and now["a"] == "GOOD" and was["a"] == "FIXING":
                     p = fx[0]
                     if p.completable(True, kt):
                         if not p.interrupted and not p.flagged and p.d >= 1:
@@ -687,6 +694,24 @@ def run_case(case: Dict) -> CaseResult:
                                     f"health of {key} is {v} although its true health was {vals} throughout the "
                                     f"accepted completion window ({len(bad)} item(s) contradict completion)")
                         p.flagged = True
+        # A scan that was seen to complete in this step (some item's change can only be its work) must have covered
+        # EVERY item it covers: another pending scan on a folder can add a second opportunity, never remove this one.
+        for p in pend:
+            if p.kind not in ("fscan", "nscan") or p.completed != kt or p.flagged:
+                continue
+            bad = []
+            for key, vals in p.values.items():
+                if key in p.excluded or key not in p.items0 or key not in cur or cur[key]["del"]:
+                    continue
+                if cur[key]["v"] not in vals:
+                    bad.append((key, cur[key]["v"], sorted(vals)))
+            if bad:
+                key, v, vals = bad[0]
+                res.violate(f"scan-skipped-item:{p.kind}:{kind_of(key)}",
+                            f"{when}: the {p.kind} requested at tick {p.k0} (duration {p.d}) completed in this step but "
+                            f"visible health of {key} is {v} although its true health was {vals} inside the completion "
+                            f"window ({len(bad)} covered item(s) were not brought up to date; pending: "
+                            f"{[(q.kind, q.target, q.d, q.k0) for q in pend]})")
         keep = []
         for p in pend:
             if p.completed is not None:
